@@ -210,7 +210,7 @@ func (p *Promise) Reject(err value.Value, stackTrace *value.StackTrace) {
 
 func (p *Promise) enqueueContinuations(queue chan *Promise) {
 	for _, cont := range p.continuations {
-		queue <- cont
+		enqueueTask(queue, cont)
 	}
 	p.continuations = nil
 }
